@@ -267,6 +267,26 @@ func init() {
 				direct = append(direct, map[string]any{"delegation": i, "what": "Extract(Archive(d)) failed: " + err.Error()})
 			} else if why := sameDelegation(t, ex, 0); why != "" {
 				direct = append(direct, map[string]any{"delegation": i, "what": "Extract(Archive(d)) differs: " + why})
+			} else {
+				// second generation: what was read back is archived and read again
+				ab2, err := io.ReadAll(ex.Archive())
+				if err != nil {
+					direct = append(direct, map[string]any{"delegation": i, "what": "Archive of an extracted delegation failed: " + err.Error()})
+				} else if ex2, err := delegation.Extract(ab2); err != nil {
+					direct = append(direct, map[string]any{"delegation": i, "what": "Extract(Archive(Extract(Archive(d)))) failed: " + err.Error()})
+				} else if why := sameDelegation(t, ex2, 0); why != "" {
+					direct = append(direct, map[string]any{"delegation": i, "what": "Extract(Archive(Extract(Archive(d)))) differs: " + why})
+				}
+			}
+			// an archive that carries blocks more than once (as a store that does not de-duplicate writes them)
+			if roots, blks, err := carDecodeAll(ab); err == nil && len(blks) > 0 {
+				dup := append([]ipld.Block{blks[r.Intn(len(blks))]}, blks...)
+				dup = append(dup, blks...)
+				if exd, err := delegation.Extract(carBytes(roots, dup)); err != nil {
+					direct = append(direct, map[string]any{"delegation": i, "what": "Extract of an archive with repeated blocks failed: " + err.Error()})
+				} else if why := sameDelegation(t, exd, 0); why != "" {
+					direct = append(direct, map[string]any{"delegation": i, "what": "Extract of an archive with repeated blocks differs: " + why})
+				}
 			}
 			// Format / Parse
 			fs, err := delegation.Format(t.d)
@@ -278,6 +298,12 @@ func init() {
 					direct = append(direct, map[string]any{"delegation": i, "what": "Parse(Format(d)) failed: " + err.Error()})
 				} else if why := sameDelegation(t, pd, 0); why != "" {
 					direct = append(direct, map[string]any{"delegation": i, "what": "Parse(Format(d)) differs: " + why})
+				} else if fs2, err := delegation.Format(pd); err != nil {
+					direct = append(direct, map[string]any{"delegation": i, "what": "Format of a parsed delegation failed: " + err.Error()})
+				} else if pd2, err := delegation.Parse(fs2); err != nil {
+					direct = append(direct, map[string]any{"delegation": i, "what": "Parse(Format(Parse(Format(d)))) failed: " + err.Error()})
+				} else if why := sameDelegation(t, pd2, 0); why != "" {
+					direct = append(direct, map[string]any{"delegation": i, "what": "Parse(Format(Parse(Format(d)))) differs: " + why})
 				}
 			}
 			// the archive's variant (root) block
